@@ -49,20 +49,21 @@ type schedEv struct {
 }
 
 type Gor struct {
-	points  int  // instrumented synchronisation points passed so far
-	siteOK  bool // the current external call comes from instrumentable code
-	sitePos string
-	id      int
-	wake    chan struct{}
-	done    bool
-	started bool
-	blocked func() bool
-	desc    string
-	vc      vclock
-	fn      Value
-	args    []Value
-	pos     token.Pos
-	endVC   vclock
+	points   int  // instrumented synchronisation points passed so far
+	siteOK   bool // the current external call comes from instrumentable code
+	sitePos  string
+	id       int
+	wake     chan struct{}
+	done     bool
+	started  bool
+	blocked  func() bool
+	desc     string
+	internal bool // spawned by a model / the standard library
+	vc       vclock
+	fn       Value
+	args     []Value
+	pos      token.Pos
+	endVC    vclock
 }
 
 func (g *Gor) enabled() bool {
@@ -85,6 +86,9 @@ func (e *Engine) newGor(fn Value, args []Value, pos token.Pos) *Gor {
 
 func (e *Engine) spawn(parent *Gor, fn Value, args []Value, pos token.Pos) {
 	g := e.newGor(fn, args, pos)
+	// goroutines started by models or the standard library have no counterpart the native
+	// replay could schedule (see replaySchedule)
+	g.internal = !e.siteOK(pos)
 	if len(e.gors) > e.maxGors {
 		panic(engineErr("goroutine bound exceeded (%d)", e.maxGors))
 	}
@@ -468,6 +472,25 @@ func (e *Engine) mutexLock(g *Gor, p *Value) {
 	e.acquire(g, &m.vc)
 }
 
+// opLock / opUnlock: the internal lock of a library object (sync.Once, sync.Map)
+// whose method call is ONE scheduling point for the native replay: the caller
+// yields once (name), then takes the lock without a further point.
+func (e *Engine) opLock(g *Gor, p *Value, name string) {
+	m := e.mutexOf(p)
+	e.yield(g, name)
+	if m.held {
+		e.blockOn(g, func() bool { return !m.held }, name)
+	}
+	m.held = true
+	e.acquire(g, &m.vc)
+}
+
+func (e *Engine) opUnlock(g *Gor, p *Value) {
+	m := e.mutexOf(p)
+	e.release(g, &m.vc)
+	m.held = false
+}
+
 func (e *Engine) mutexTryLock(g *Gor, p *Value) bool {
 	m := e.mutexOf(p)
 	e.yield(g, "Mutex.TryLock")
@@ -705,3 +728,57 @@ func (e *Engine) selectOp(fr *frame, instr *ssa.Select) Value {
 }
 
 var _ sync.Mutex
+
+// replaySchedule translates the recorded token transfers into what the native
+// replay can follow. Natively only goroutines started by instrumented `go`
+// statements (package under test, harness) are numbered and scheduled;
+// goroutines started inside models or the standard library (a timer or
+// AfterFunc callback, a context propagation helper) run on their own there. So
+// they are left out of the numbering, and a hand-over that passes through them
+// is collapsed into a hand-over to the next ordinary goroutine.
+func (e *Engine) replaySchedule(log []schedEv) []schedEv {
+	rid := map[int]int{}
+	n := 0
+	anyInternal := false
+	for _, g := range e.gors {
+		if g.internal {
+			rid[g.id] = -1
+			anyInternal = true
+		} else {
+			rid[g.id] = n
+			n++
+		}
+	}
+	if !anyInternal {
+		return append([]schedEv(nil), log...)
+	}
+	var out []schedEv
+	for i, ev := range log {
+		if rid[ev.G] < 0 {
+			continue
+		}
+		next := ev.Next
+		// follow the token through internal goroutines
+		for j := i + 1; rid[next] < 0; j++ {
+			found := false
+			for ; j < len(log); j++ {
+				if log[j].G == next {
+					next = log[j].Next
+					found = true
+					break
+				}
+			}
+			if !found {
+				break
+			}
+		}
+		if rid[next] < 0 || rid[next] == rid[ev.G] && ev.Kind != "exit" {
+			if rid[next] == rid[ev.G] {
+				continue // the token came straight back: nothing for the replay to do
+			}
+			continue
+		}
+		out = append(out, schedEv{G: rid[ev.G], Point: ev.Point, Kind: ev.Kind, Next: rid[next]})
+	}
+	return out
+}
